@@ -702,33 +702,24 @@ pub fn trivia_variants(texts: &[(String, String)]) -> Vec<(String, Vec<(String, 
     let mut out = Vec::new();
     let trivia = [" ", "\n", "/* c */ ", "// c\n", "\t", "/* é😉 */", "/* r/w: http://x/y */ "];
     for (mi, (_, text)) in texts.iter().enumerate() {
-        // token boundaries = spaces outside strings, inline and line annotations
-        let b = text.as_bytes();
-        let mut i = 0;
+        // token boundaries: the end of every token but the last (the reference splitter of the
+        // token space also cuts between the segments of a URI and the parts of `q.name`, which
+        // the printer glues together)
         let mut bounds = vec![];
-        while i < b.len() {
-            match b[i] {
-                b'"' => {
-                    i += 1;
-                    while i < b.len() && b[i] != b'"' {
-                        i += 1;
-                    }
+        match crate::tokspace::ref_split(text) {
+            Some(pieces) => {
+                let toks: Vec<_> = pieces.iter().filter(|p| !p.trivia).collect();
+                for t in toks.iter().take(toks.len().saturating_sub(1)) {
+                    bounds.push(t.end);
                 }
-                b'`' => {
-                    i += 1;
-                    while i < b.len() && b[i] != b'`' {
-                        i += 1;
-                    }
-                }
-                b'#' => {
-                    while i < b.len() && b[i] != b'\n' {
-                        i += 1;
-                    }
-                }
-                b' ' => bounds.push(i),
-                _ => {}
             }
-            i += 1;
+            None => {
+                for (i, c) in text.bytes().enumerate() {
+                    if c == b' ' {
+                        bounds.push(i);
+                    }
+                }
+            }
         }
         for pos in bounds {
             for t in trivia {
